@@ -37,6 +37,7 @@ def _violations(pid, repo):
 def run(R, ctx, pid):
     from selftest import specs
     muts = list(specs.M.get(pid, []))
+    known_miss = []
     # kept seeded changes for this property
     seed_root = os.path.join(VERIF, "seeded")
     if os.path.isdir(seed_root):
@@ -46,6 +47,9 @@ def run(R, ctx, pid):
                 continue
             mj = json.load(open(meta))
             if mj.get("property") != pid and not d.startswith(pid):
+                continue
+            if str(mj.get("caught_by", "")).startswith("MISSED"):
+                known_miss.append(d)
                 continue
             patch = os.path.join(seed_root, d, "patch_rebased.diff")
             if not os.path.exists(patch):
@@ -91,6 +95,7 @@ def run(R, ctx, pid):
         # facts of scratch copies are cached by content hash under .work/facts and garbage-collected there
     det = sum(1 for r in results if r["status"] == "detected")
     missed = [r for r in results if r["status"] == "MISSED"]
+    R.meta["selftest_known_misses"] = known_miss
     R.meta["selftest"] = {"mutants": len(results), "detected": det, "missed": len(missed), "skipped": len(results) - det - len(missed),
                           "wall_s": round(time.time() - t0, 1), "results": results}
     for r in results:
